@@ -3,153 +3,6 @@
 // UTF-8 structure lemmas (vstd::utf8 gives the definitions; these are proved by induction on them)
 // ---------------------------------------------------------------------------------------------
 
-/// bytewise characterisation of a char boundary (this is how core::str::is_char_boundary is implemented)
-pub open spec fn cb(b: Seq<u8>, i: int) -> bool {
-    0 <= i <= b.len() && (i == b.len() || !is_continuation_byte(b[i]))
-}
-
-/// shape of the first scalar of a non-empty valid sequence
-pub proof fn lemma_first_scalar_shape(b: Seq<u8>)
-    requires valid_utf8(b), b.len() > 0,
-    ensures
-        valid_first_scalar(b),
-        1 <= length_of_first_scalar(b) <= 4,
-        length_of_first_scalar(b) <= b.len(),
-        !is_continuation_byte(b[0]),
-        forall|i: int| 1 <= i < length_of_first_scalar(b) ==> is_continuation_byte(#[trigger] b[i]),
-        b[0] < 0x80u8 <==> length_of_first_scalar(b) == 1,
-        valid_utf8(pop_first_scalar(b)),
-        pop_first_scalar(b) == b.subrange(length_of_first_scalar(b), b.len() as int),
-        pop_first_scalar(b).len() == b.len() - length_of_first_scalar(b),
-{
-}
-
-/// (L1+L2 generalised) in valid UTF-8, `is_char_boundary` is exactly "end of text or not a continuation byte"
-pub proof fn lemma_char_boundary_iff(b: Seq<u8>, i: int)
-    requires valid_utf8(b),
-    ensures is_char_boundary(b, i) <==> cb(b, i),
-    decreases b.len(),
-{
-    if i == 0 {
-        if b.len() > 0 { lemma_first_scalar_shape(b); }
-    } else if i < 0 || b.len() < i {
-    } else {
-        lemma_first_scalar_shape(b);
-        let l = length_of_first_scalar(b);
-        let p = pop_first_scalar(b);
-        lemma_char_boundary_iff(p, i - l);
-        if i < l {
-            assert(is_continuation_byte(b[i]));
-        } else if i < b.len() {
-            assert(p[i - l] == b[i]);
-        }
-    }
-}
-
-/// all boundaries at once
-pub proof fn lemma_char_boundary_all(b: Seq<u8>)
-    requires valid_utf8(b),
-    ensures forall|i: int| #[trigger] is_char_boundary(b, i) <==> cb(b, i),
-{
-    assert forall|i: int| #[trigger] is_char_boundary(b, i) <==> cb(b, i) by { lemma_char_boundary_iff(b, i); }
-}
-
-pub proof fn lemma_valid_suffix(b: Seq<u8>, i: int)
-    requires valid_utf8(b), is_char_boundary(b, i),
-    ensures valid_utf8(b.subrange(i, b.len() as int)),
-    decreases b.len(),
-{
-    if i == 0 {
-        assert(b.subrange(0, b.len() as int) =~= b);
-    } else {
-        lemma_first_scalar_shape(b);
-        let l = length_of_first_scalar(b);
-        let p = pop_first_scalar(b);
-        lemma_valid_suffix(p, i - l);
-        lemma_char_boundary_iff(p, i - l);
-        assert(p.subrange(i - l, p.len() as int) =~= b.subrange(i, b.len() as int));
-    }
-}
-
-pub proof fn lemma_valid_prefix(b: Seq<u8>, j: int)
-    requires valid_utf8(b), is_char_boundary(b, j),
-    ensures valid_utf8(b.subrange(0, j)),
-    decreases b.len(),
-{
-    if j == 0 {
-        assert(b.subrange(0, 0).len() == 0);
-    } else {
-        lemma_first_scalar_shape(b);
-        let l = length_of_first_scalar(b);
-        let p = pop_first_scalar(b);
-        lemma_char_boundary_iff(p, j - l);
-        lemma_valid_prefix(p, j - l);
-        let q = b.subrange(0, j);
-        assert(q.len() == j && j >= l);
-        assert(forall|k: int| 0 <= k < l ==> q[k] == b[k]);
-        assert(valid_leading_and_continuation_bytes_first_codepoint(q));
-        assert(length_of_first_codepoint(q) == l);
-        assert(decode_first_codepoint(q) == decode_first_codepoint(b));
-        assert(valid_first_scalar(q));
-        assert(pop_first_scalar(q) =~= p.subrange(0, j - l));
-    }
-}
-
-/// (L3) a range between two boundaries is valid UTF-8 and its boundaries are those of the whole text
-pub proof fn lemma_valid_subrange(b: Seq<u8>, i: int, j: int)
-    requires valid_utf8(b), is_char_boundary(b, i), is_char_boundary(b, j), i <= j,
-    ensures
-        0 <= i <= j <= b.len(),
-        valid_utf8(b.subrange(i, j)),
-        forall|k: int| i <= k <= j ==> (#[trigger] is_char_boundary(b.subrange(i, j), k - i) <==> is_char_boundary(b, k)),
-{
-    lemma_char_boundary_all(b);
-    lemma_valid_prefix(b, j);
-    let q = b.subrange(0, j);
-    lemma_char_boundary_all(q);
-    assert(cb(q, i));
-    lemma_valid_suffix(q, i);
-    assert(q.subrange(i, q.len() as int) =~= b.subrange(i, j));
-    let r = b.subrange(i, j);
-    lemma_char_boundary_all(r);
-    assert forall|k: int| i <= k <= j implies (#[trigger] is_char_boundary(r, k - i) <==> is_char_boundary(b, k)) by {
-        if k < j { assert(r[k - i] == b[k]); }
-    }
-}
-
-/// (L5) decoding splits at boundaries
-pub proof fn lemma_decode_split3(b: Seq<u8>, i: int, j: int, k: int)
-    requires valid_utf8(b), is_char_boundary(b, i), is_char_boundary(b, j), is_char_boundary(b, k), i <= j <= k,
-    ensures decode_utf8(b.subrange(i, k)) =~= decode_utf8(b.subrange(i, j)) + decode_utf8(b.subrange(j, k)),
-{
-    lemma_valid_subrange(b, i, k);
-    let r = b.subrange(i, k);
-    assert(is_char_boundary(r, j - i));
-    decode_utf8_split(r, j - i);
-    assert(r.subrange(0, j - i) =~= b.subrange(i, j));
-    assert(r.subrange(j - i, r.len() as int) =~= b.subrange(j, k));
-}
-
-pub proof fn lemma_decode_nonempty(s: Seq<u8>)
-    requires valid_utf8(s), s.len() > 0,
-    ensures decode_utf8(s).len() > 0,
-{
-}
-
-/// (L4) an all-ASCII valid sequence decodes to as many chars as it has bytes
-pub proof fn lemma_ascii_decode_len(s: Seq<u8>)
-    requires valid_utf8(s), forall|i: int| 0 <= i < s.len() ==> s[i] < 0x80u8,
-    ensures decode_utf8(s).len() == s.len(),
-    decreases s.len(),
-{
-    if s.len() > 0 {
-        lemma_first_scalar_shape(s);
-        let p = pop_first_scalar(s);
-        assert(forall|i: int| 0 <= i < p.len() ==> p[i] == s[i + 1]);
-        lemma_ascii_decode_len(p);
-    }
-}
-
 // ---------------------------------------------------------------------------------------------
 // cols
 // ---------------------------------------------------------------------------------------------
@@ -193,54 +46,6 @@ pub proof fn lemma_cols_monotonic(b: Seq<u8>, ls: int, o1: int, o2: int)
         lemma_valid_subrange(b, o1, o2);
         lemma_decode_nonempty(b.subrange(o1, o2));
         lemma_cols_pos(decode_utf8(b.subrange(o1, o2)));
-    }
-}
-
-/// a `str`'s chars are the decoding of its bytes
-pub proof fn lemma_str_view_decode(s: &str)
-    ensures valid_utf8(s.spec_bytes()), s@ == decode_utf8(s.spec_bytes()), s.spec_bytes() == encode_utf8(s@),
-{
-    encode_utf8_valid_utf8(s@);
-    encode_utf8_decode_utf8(s@);
-}
-
-/// byte length of the encoding of a prefix of `s`: grows by the encoded char, never exceeds the whole
-pub proof fn lemma_encode_prefix(s: Seq<char>, k: int)
-    requires 0 <= k <= s.len(),
-    ensures
-        encode_utf8(s.subrange(0, k)).len() <= encode_utf8(s).len(),
-        k == s.len() ==> encode_utf8(s.subrange(0, k)).len() == encode_utf8(s).len(),
-        k < s.len() ==> encode_utf8(s.subrange(0, k)).len() < encode_utf8(s).len(),
-        k < s.len() ==> encode_utf8(s.subrange(0, k + 1)).len() == encode_utf8(s.subrange(0, k)).len() + encode_scalar(s[k] as u32).len(),
-        encode_utf8(s) =~= encode_utf8(s.subrange(0, k)) + encode_utf8(s.subrange(k, s.len() as int)),
-{
-    assert(s =~= s.subrange(0, k) + s.subrange(k, s.len() as int));
-    encode_utf8_concat(s.subrange(0, k), s.subrange(k, s.len() as int));
-    assert(s.subrange(0, s.len() as int) =~= s);
-    if k < s.len() {
-        assert(s.subrange(0, k + 1) =~= s.subrange(0, k).push(s[k]));
-        encode_utf8_push(s.subrange(0, k), s[k]);
-        lemma_encode_utf8_len_strictly_monotonic(s, k, s.len() as int);
-    }
-}
-
-/// (L2) in valid UTF-8 an ASCII byte sits on a char boundary, and so does the position after it
-pub proof fn lemma_ascii_byte_boundaries(b: Seq<u8>, p: int)
-    requires valid_utf8(b), 0 <= p < b.len(), b[p] < 0x80u8,
-    ensures is_char_boundary(b, p), is_char_boundary(b, p + 1),
-    decreases b.len(),
-{
-    lemma_first_scalar_shape(b);
-    let l = length_of_first_scalar(b);
-    let q = pop_first_scalar(b);
-    if p == 0 {
-        assert(l == 1);
-        assert(is_char_boundary(q, 0));
-    } else if p < l {
-        assert(is_continuation_byte(b[p]));
-    } else {
-        assert(q[p - l] == b[p]);
-        lemma_ascii_byte_boundaries(q, p - l);
     }
 }
 
@@ -515,17 +320,6 @@ pub proof fn lemma_line_no_le_start(li: &LineIndex, b: Seq<u8>, l: int)
     if l > 0 {
         lemma_line_no_le_start(li, b, l - 1);
         assert(li.line_offsets@[l - 1] < li.line_offsets@[l]);
-    }
-}
-
-pub proof fn lemma_decode_len_le(s: Seq<u8>)
-    requires valid_utf8(s),
-    ensures decode_utf8(s).len() <= s.len(),
-    decreases s.len(),
-{
-    if s.len() > 0 {
-        lemma_first_scalar_shape(s);
-        lemma_decode_len_le(pop_first_scalar(s));
     }
 }
 
